@@ -130,10 +130,12 @@ def deposit_shell(ck, prog, cfg, dec, first):
 
 
 def d_exact(A, x, y, scale=10**9):
-    """independent solution of the two-asset stableswap invariant 4A(x+y) + D = 4AD + D^3/(4xy): floor(D*scale) by integer bisection
+    """independent solution of the two-asset stableswap invariant in the convention of the code under analysis (Ann = n * amp, the curve both the
+    swap solver and the deposit solver iterate towards): Ann (x+y) + D = Ann D + D^3/(4xy) with Ann = 2A: floor(D*scale) by integer bisection
     (g is strictly decreasing in D for A >= 1)."""
     x *= scale; y *= scale
-    g = lambda D: 16 * A * x * y * (x + y) + 4 * x * y * D - 16 * A * x * y * D - D ** 3
+    ann = 2 * A
+    g = lambda D: 4 * x * y * (ann * (x + y) + D - ann * D) - D ** 3
     lo, hi = 0, 2 * (x + y) + 2
     while hi - lo > 1:
         mid = (lo + hi) // 2
